@@ -849,7 +849,7 @@ func runScenario(sc *scenario) (rec vtr.Rec) {
 type killPlan struct {
 	Method  string `json:"method"`
 	Ordinal int    `json:"ordinal"` // 1-based, counted per method since the plan was armed
-	Phase   string `json:"phase"`   // before | after | afterlost | mid
+	Phase   string `json:"phase"`   // before | after | afterlost | mid | drop (reply lost, machine stays up)
 	Bytes   int    `json:"bytes"`   // mid: reply bytes delivered before the kill
 	fired   bool
 }
@@ -979,6 +979,13 @@ func (k *killer) RoundTrip(req *http.Request) (*http.Response, error) {
 		}
 		body, rerr := ioutil.ReadAll(resp.Body)
 		resp.Body.Close()
+		if pl.Phase == "drop" {
+			k.mu.Lock()
+			k.nfired++
+			k.log = append(k.log, vtr.Rec{"method": pl.Method, "ordinal": pl.Ordinal, "phase": pl.Phase, "killed": false})
+			k.mu.Unlock()
+			return nil, fmt.Errorf("verif: reply from %s lost", addr)
+		}
 		k.kill(addr, pl)
 		if pl.Phase == "afterlost" || rerr != nil {
 			return nil, fmt.Errorf("verif: connection to %s lost", addr)
